@@ -36,6 +36,7 @@ REL_IN = 64 * U  # relative perturbation of a series argument assumed by the per
 TARGET = 1e-9
 
 _tables = {}
+_thr = {}
 
 
 def entry_table(table, key):
@@ -50,6 +51,9 @@ def entry_table(table, key):
     if br is None:
         raise TaylorError(f"{key}: unexpected entry structure")
     c, T, C = br
+    # the switch threshold is read from the real graph (a changed threshold changes the analysed ranges)
+    thr = float(g.payload(g.args(c)[1])) if g.op(g.args(c)[1]) == "CONST" else EPS
+    _thr[ck] = thr
     rows = []
 
     plain = table == "SERIES"
@@ -64,14 +68,14 @@ def entry_table(table, key):
             e_max, m_max = max(e_max, e), max(m_max, v.mag())
         return e_max, m_max
 
-    # Taylor branch: [0, EPS (1 + 1e-9)]
+    # Taylor branch: [0, thr (1 + 1e-9)]
     k = 24
-    edges = [0.0] + [EPS * (1 + 1e-9) * (j / k) for j in range(1, k + 1)]
+    edges = [0.0] + [thr * (1 + 1e-9) * (j / k) for j in range(1, k + 1)]
     for a, b in zip(edges, edges[1:]):
         e, mg = run(T, a, b)
         rows.append((a, b, e, mg, "T"))
-    # closed-form branch: [EPS (1 - 1e-9), A_MAX]
-    a = EPS * (1 - 1e-9)
+    # closed-form branch: [thr (1 - 1e-9), A_MAX]
+    a = thr * (1 - 1e-9)
     while a < A_MAX:
         b = min(a * (1 + ETA_SUB), A_MAX)
         e, mg = run(C, a, b)
@@ -102,7 +106,8 @@ def coef_error_abs(table, key, hi, e_in):
     F = (SQUARED_SERIES if table == "SQUARED_SERIES" else SERIES)[key]
     g, n = entry_graph(F)
     c, T, C = split_branches(g, n)
-    hi = min(hi, EPS * (1 + 1e-9))
+    entry_table(table, key)
+    hi = min(hi, _thr[(table, key)] * (1 + 1e-9))
     e_max, m_max = 0.0, 0.0
     k = 8
     for j in range(k):
@@ -173,13 +178,19 @@ class FPJob:
                         e, mg = coef_error(table, key, lo[j] * (1 - 1e-9), hi[j] * (1 + 1e-9))
                     else:
                         e, mg = coef_error_abs(table, key, hi[j] * (1 + 1e-9), earg[j])
-                        if hi[j] >= EPS * (1 - 1e-6):  # the shell reaches past the switch: closed-form rows as well
-                            if earg[j] > REL_IN * EPS * 0.99:
+                        entry_table(table, key)
+                        thr0 = _thr[(table, key)]
+                        if hi[j] >= thr0 * (1 - 1e-6):  # the shell reaches past the switch: closed-form rows as well
+                            if earg[j] > REL_IN * thr0 * 0.99:
                                 raise TaylorError(f"argument error {earg[j]:.2e} of {key} too large at the switch")
-                            e2, mg2 = coef_error(table, key, EPS * (1 - 1e-9), hi[j] * (1 + 1e-9))
+                            e2, mg2 = coef_error(table, key, thr0 * (1 - 1e-9), hi[j] * (1 + 1e-9))
                             e, mg = max(e, e2), max(mg, mg2)
-                    if lo[j] <= EPS * (1 + 1e-6):
-                        e += entry_bounds(table, key, EPS)[0]  # truncation of the Taylor branch
+                    entry_table(table, key)
+                    thr = _thr[(table, key)]
+                    if lo[j] <= thr * (1 + 1e-6):
+                        if thr > EPS * (1 + 1e-9):
+                            raise TaylorError(f"{key}: switch threshold {thr} above the cell of the truncation lemma")
+                        e += entry_bounds(table, key, EPS)[0]  # truncation of the Taylor branch (lemma proved on |arg| < 1e-3)
                     env_val[("c", j, 0)] = IV(-mg, mg)
                     env_err[("c", j, 0)] = e
                 memo = fperr.analyse(g, out_nodes, env_val, env_err)
